@@ -7,7 +7,7 @@
 From Coq Require Import List ZArith String.
 From AGH Require Import Model.Migrate Proofs.Migrate Proofs.MigrateFrame Proofs.MigrateSim
   Proofs.MigrateTable Gen.MigrateTable Proofs.MigrateFrameDns Proofs.MigrateElems
-  Model.MigrateLoad Proofs.MigrateLoadable Proofs.MigrateLoadableC Proofs.MigrateBack.
+  Model.MigrateLoad Proofs.MigrateLoadable Proofs.MigrateLoadableC Proofs.MigrateLoadableH Proofs.MigrateBack.
 Import ListNotations.
 Local Open Scope string_scope.
 Local Open Scope Z_scope.
@@ -317,14 +317,12 @@ Print Assumptions C13_clients_satisfiable.
     [loadable v m] (Model/MigrateLoad.v): the kind check the typed loader
     applies to the keys the steps read or write, for a document of schema
     version [v] (keys a later version introduces absent; null not accepted
-    where start-up dereferences a pointer).  Wanted: every successful upgrade
-    of a document loadable at its version is loadable at the target version
-    ([loadable_preserved_statement]).  Proved: the composition over the step
-    table, and the per-step lemma for the steps in [proved_steps]; the other
-    steps enter as the explicit hypothesis [unproved_steps_keep], which the
-    harness evaluates on every document it upgrades (Run/C13.v,
-    [loadable_kept]).  Values (duration syntax, addresses, known service ids)
-    are validated on the real code by the loader monitor's start-up stages. *)
+    where start-up dereferences a pointer).  Every successful upgrade of a
+    document loadable at its version is loadable at the target version
+    ([C13_loadable_preserved], all 29 steps; the earlier partial form with
+    the hypothesis [unproved_steps_keep] is kept, and the hypothesis is now a
+    lemma).  Values (duration syntax, addresses, known service ids) are
+    validated on the real code by the loader monitor's start-up stages. *)
 Definition C13_loadable_preserved_statement : Prop := loadable_preserved_statement.
 
 Theorem C13_loadable_preserved_partial : forall O, unproved_steps_keep O ->
@@ -332,6 +330,50 @@ Theorem C13_loadable_preserved_partial : forall O, unproved_steps_keep O ->
     upgrade O cur tgt m = Ok m' -> loadable cur m = true -> loadable tgt m' = true.
 Proof. exact loadable_preserved_partial. Qed.
 Print Assumptions C13_loadable_preserved_partial.
+
+(** The full theorem: all 29 per-step lemmas composed over the table. *)
+Theorem C13_loadable_preserved : forall O cur tgt m m', (cur <= tgt <= 29)%nat ->
+  upgrade O cur tgt m = Ok m' -> loadable cur m = true -> loadable tgt m' = true.
+Proof. exact loadable_preserved. Qed.
+Print Assumptions C13_loadable_preserved.
+
+Theorem C13_loadable_preserved_is_statement : C13_loadable_preserved_statement.
+Proof. exact loadable_preserved_is_statement. Qed.
+Print Assumptions C13_loadable_preserved_is_statement.
+
+Theorem C13_unproved_steps_keep_holds : forall O, unproved_steps_keep O.
+Proof. exact unproved_steps_kept. Qed.
+Print Assumptions C13_unproved_steps_keep_holds.
+
+(** At the level of [Migrate], and for what the loader actually reads: the
+    new body is loadable as the tree the steps leave and as the file written
+    from it (serialising erases Go's dynamic types, which keeps every kind).
+    This is the statement the evaluator checks per document ([loadable_kept]). *)
+Theorem C13_output_loadable : forall O top t a,
+  migrate O top t = ONew a ->
+  loadable (nat_version (input_map top)) (input_map top) = true ->
+  loadable (Z.to_nat t) a = true /\ loadable (Z.to_nat t) (norm_obj a) = true.
+Proof. exact migrate_output_loadable. Qed.
+Print Assumptions C13_output_loadable.
+
+Theorem C13_reread_keeps_kinds : forall s v, conforms s v = true -> conforms s (norm v) = true.
+Proof. exact conforms_norm. Qed.
+Print Assumptions C13_reread_keeps_kinds.
+
+Example C13_loadable_moves_satisfiable :
+  loadable 14 doc14_moves = true /\
+  exists a, migrate oracles0 (Some doc14_moves) 29 = ONew a /\ loadable 29 a = true /\ loadable 29 (norm_obj a) = true /\
+    (exists q, get "querylog" a = Some (VObj q) /\ get "size_memory" q = Some (VInt 500)) /\
+    (exists l, get "log" a = Some (VObj l) /\ get "max_backups" l = Some (VInt 3)) /\
+    (exists f, get "filtering" a = Some (VObj f) /\ get "blocked_response_ttl" f = Some (VInt 10)).
+Proof. exact loadable_doc14_moves. Qed.
+Print Assumptions C13_loadable_moves_satisfiable.
+
+Example C13_loadable_typed_and_file :
+  exists a, migrate oracles0 (Some doc22) 29 = ONew a /\ loadable 22 doc22 = true /\
+    loadable 29 a = true /\ loadable 29 (norm_obj a) = true /\ plain (VObj a) = false.
+Proof. exact doc22_loadable_both. Qed.
+Print Assumptions C13_loadable_typed_and_file.
 
 Example C13_loadable_satisfiable :
   loadable 3 doc3_clients = true /\
